@@ -55,9 +55,12 @@ func (c *Constraints) transform(v reflect.Value) {
 		switch v.Kind() {
 		case reflect.Interface:
 			// in case we passed a pointer to an interface which is a string
-			i := v.Elem().Interface()
-			if s, ok := i.(string); ok {
-				v.Set(reflect.ValueOf(strings.ToUpper(s)))
+			// (a nil interface cannot be a string)
+			if !v.IsNil() {
+				i := v.Elem().Interface()
+				if s, ok := i.(string); ok {
+					v.Set(reflect.ValueOf(strings.ToUpper(s)))
+				}
 			}
 
 		case reflect.String:
@@ -71,9 +74,12 @@ func (c *Constraints) transform(v reflect.Value) {
 		switch v.Kind() {
 		case reflect.Interface:
 			// in case we passed a pointer to an interface which is a string
-			i := v.Elem().Interface()
-			if s, ok := i.(string); ok {
-				v.Set(reflect.ValueOf(strings.ToLower(s)))
+			// (a nil interface cannot be a string)
+			if !v.IsNil() {
+				i := v.Elem().Interface()
+				if s, ok := i.(string); ok {
+					v.Set(reflect.ValueOf(strings.ToLower(s)))
+				}
 			}
 
 		case reflect.String:
